@@ -1,5 +1,7 @@
 mod common;
 mod anim;
+mod extreme;
+mod obj;
 mod tl;
 mod ts;
 use serde_json::Value;
@@ -42,6 +44,14 @@ fn main() {
             for (i, l) in lines.iter().enumerate() { anim::replay_anim_line(&mut tally, i + 1, l, &scales); }
             println!("{}", tally.report());
         }
+        "replay-obj" => {
+            let lines = read_lines(&args[2]);
+            let scales: Vec<i64> = args.get(3).map(|s| s.split(',').map(|x| x.parse().unwrap()).collect()).unwrap_or(vec![-3, 0, 5]);
+            let mut tally = tl::Tally::new();
+            for (i, l) in lines.iter().enumerate() { obj::replay_obj_line(&mut tally, i + 1, l, &scales); }
+            println!("{}", tally.report());
+        }
+        "drive-extreme" => println!("{}", extreme::drive_extreme(args[2].parse().unwrap(), args[3].parse().unwrap())),
         "drive-ts" => {
             // drive-ts <seed> <configs> <out.ndjson>
             let r = ts::drive_ts(args[2].parse().unwrap(), args[3].parse().unwrap(), &args[4]);
